@@ -321,6 +321,7 @@ class Gen:
         self.items_sha: Dict[str, str] = {}
         self.rewrites: List[dict] = []
         self.extracted: List[Tuple[str, str, str]] = []   # (id, original text, emitted text)
+        self.skipped_hints: List[str] = []
 
     # ---- consts (E7)
     def emit_const(self, d: Directive):
@@ -633,7 +634,11 @@ class Gen:
                         hits.append(i)
                     i += 1
                 if nth < 1 or nth > len(hits):
-                    raise AnchorLost(f"{fid}: insert_before anchor {anchor!r} #{nth}: {len(hits)} statement-start hits")
+                    # soft anchor: a proof hint whose statement is gone is skipped (a missing hint can only make a
+                    # proof fail, never succeed); recorded so that the report can say so
+                    self.skipped_hints.append(f"{fid}: hint before {anchor!r} #{nth}")
+                    info.setdefault("skipped_hints", []).append(f"{anchor} #{nth}")
+                    continue
                 sp.insert(st[hits[nth - 1]].start, ADD("E10", c.text.rstrip() + "\n"))
         assumed = d.opts.get("assume") is not None
         info["assumed"] = assumed
